@@ -33,12 +33,29 @@ class MPQueue:
         self.sched, self.name = sched, name
         self.buf = {}             # actor name -> list of pickled items
         self.pipe = []
+        # mp.Queue.close() as CPython implements it: the calling process will put nothing more; its feeder thread flushes what
+        # is buffered and then closes BOTH pipe ends of that process.  A process forked after that inherits closed handles.
+        self.closing = set()      # processes that called close()
+        self.closed_in = set()    # processes whose pipe ends are closed (the feeder has flushed)
+        self.dead_for = set()     # actors (forked children) that inherited closed handles
 
     def put(self, item):
         self.sched.point(('put', self, item))
 
     def get(self, block=True, timeout=None):
         return self.sched.point(('get', self, timeout if block else 0))
+
+    def close(self):
+        self.sched.point(('close', self))
+
+    def join_thread(self):
+        pass
+
+    def cancel_join_thread(self):
+        pass
+
+
+_CLOSE = b'<close sentinel>'
 
 
 class TQueue:
@@ -235,11 +252,13 @@ class Sched:
             if a.state != 'waiting' or a.pending is None:
                 continue
             op = a.pending
-            if op[0] in ('begin', 'put', 'start'):
+            if op[0] in ('begin', 'put', 'start', 'close'):
                 out.append(('act', name))
             elif op[0] == 'get':
                 q = op[1]
-                if (isinstance(q, MPQueue) and q.pipe) or (isinstance(q, TQueue) and q.items):
+                if isinstance(q, MPQueue) and (name in q.dead_for or self.proc_of(a) in q.closed_in):
+                    out.append(('act', name))          # a closed handle: the get fails at once
+                elif (isinstance(q, MPQueue) and q.pipe) or (isinstance(q, TQueue) and q.items):
                     out.append(('act', name))
                 elif op[2] is not None:
                     out.append(('timeout', name))      # a get with a timeout on an empty queue may give up (the other side is slow)
@@ -258,6 +277,11 @@ class Sched:
         if choice[0] == 'feed':
             _, q, an = choice
             item = q.buf[an].pop(0)
+            if item == _CLOSE:
+                q.closed_in.add(self.proc_of(self.actors[an]))
+                return
+            if an in q.dead_for or self.proc_of(self.actors[an]) in q.closed_in:
+                return                                  # the feeder writes to a closed pipe end: the item is dropped (the error is only logged)
             q.pipe.append(item)
             v = self.vid(pickle.loads(item))
             if self.role_of_queue(q) == 'q_in':
@@ -276,7 +300,18 @@ class Sched:
             a.state = 'running'
             self.cv.notify_all()
             return
-        if op[0] == 'put':
+        if op[0] == 'close':
+            q = op[1]
+            proc = self.proc_of(a)
+            if proc not in q.closing:
+                q.closing.add(proc)
+                if a.name in q.buf or any(self.proc_of(self.actors[n]) == proc for n in q.buf):
+                    q.buf.setdefault(a.name, []).append(_CLOSE)       # the sentinel travels behind what is buffered
+        elif op[0] == 'put' and isinstance(op[1], MPQueue) and self.proc_of(a) in op[1].closing:
+            a.result = _Raise(ValueError('Queue %r is closed' % op[1].name))
+        elif op[0] == 'get' and isinstance(op[1], MPQueue) and (a.name in op[1].dead_for or self.proc_of(a) in op[1].closed_in):
+            a.result = _Raise(OSError('handle is closed'))
+        elif op[0] == 'put':
             q, item = op[1], op[2]
             if isinstance(q, MPQueue):
                 q.buf.setdefault(a.name, []).append(pickle.dumps(item))
@@ -300,6 +335,11 @@ class Sched:
                 self.started = True
                 self.log.append(['CStart'])
             h.actor = self.spawn(name, h.kind, h.target, h.args)
+            if h.kind == 'process':
+                # fork: the child gets a copy of the parent's handles as they are NOW
+                for q in self.queues:
+                    if isinstance(q, MPQueue) and self.proc_of(a) in q.closed_in:
+                        q.dead_for.add(name)
         elif op[0] == 'join':
             tn = op[1].actor.name
             if tn == 'producer':
@@ -312,6 +352,10 @@ class Sched:
         a.granted = True
         a.state = 'running'
         self.cv.notify_all()
+
+    @staticmethod
+    def proc_of(actor):
+        return actor.name if actor.kind == 'process' else 'main'
 
     def windex(self, name):
         return int(name[1:])
